@@ -121,7 +121,19 @@ def kf_number_over_int_digit_limit(kind, dinfo, t):
     return kind == "NUMBER" and bool(re.fullmatch(r"-?\d+", t)) and len(t.lstrip("-")) > 4300
 
 
-CLASSES = [("F34", kf_date_fragment), ("C13N2", kf_literal_not_bare_word), ("C13N3", kf_number_over_int_digit_limit)]
+def kf_number_overflows_double(kind, dinfo, t):
+    """C13N4: the NUMBER fragment derives decimal numerals (with a fraction part) whose magnitude exceeds the
+    largest double; the reader refuses them (E005 out of range) rather than reading inf."""
+    if kind != "NUMBER" or not re.fullmatch(r"-?\d+\.\d+", t):
+        return False
+    try:
+        return math.isinf(float(t))
+    except ValueError:
+        return False
+
+
+CLASSES = [("F34", kf_date_fragment), ("C13N2", kf_literal_not_bare_word), ("C13N3", kf_number_over_int_digit_limit),
+           ("C13N4", kf_number_overflows_double)]
 
 # --------------------------------------------------------------------------------------------------
 # worker: one case on the real code
@@ -347,7 +359,7 @@ def gen_cases(ctx):
 def witness_text(w, default):
     t = w.get("text", default)
     if isinstance(t, dict):
-        t = t["repeat"] * t["n"]
+        t = t.get("prefix", "") + t["repeat"] * t["n"] + t.get("suffix", "")
     return t
 
 
